@@ -86,6 +86,17 @@ CHECKS = {
             "completeness is file presence/non-emptiness of .zones/.idx/.icx and core column files per uid (payload columns of optional "
             "fields may legitimately be absent); instants inside one syscall are not distinguishable for a process crash",
             "DESIGN.md §4 C11"),
+    "C03": ("exploration",
+            "runtime monitoring: pause hooks at every flush step + read-path parking + TCP stress with interval oracle",
+            "Stepped: the auto-flush is parked at each of 23 named points of its pipeline and QUERY / COUNT / REPLAY are issued while it is "
+            "parked, with further rotations queued behind it, and after release. Crossing: a read is parked at each read-path point after its "
+            "plan / passive snapshot was taken, the flush (parked at F or not yet started) runs to completion, the read resumes. Stress: real "
+            "TCP connections, concurrent writers/readers, seeded delays, write bursts and quiet periods; every read is judged against the "
+            "events acknowledged before its call / issued before its return. @state is recorded with every read (distinct visibility states "
+            "are counted in evidence).",
+            "step points are enumerated, interleavings inside a step and tokio scheduling are sampled; manual FLUSH blocks the shard mailbox and "
+            "cannot interleave with reads (covered by C01/C02)",
+            "DESIGN.md §4 C03"),
 }
 
 PENDING_REASON = "check not built yet in this session (see DESIGN.md §10 for the order); no claim is made"
